@@ -248,6 +248,10 @@ func (m *Model) Draw(win vaxis.Window) {
 
 	chars := m.content
 	cursor := col
+	// A line that fits is not scrolled, whatever was scrolled before
+	if widthToCursor(chars, len(chars), 0)+col+scrolloff < winW {
+		m.offset = 0
+	}
 	// Make sure we've scrolled enough to have the cursor in the view
 	for m.offset < m.cursor && widthToCursor(chars, m.cursor, m.offset)+col+scrolloff >= winW {
 		m.offset += 1
